@@ -24,10 +24,14 @@ class Plan:
         self.fired = None
         self.sticky = sticky  # the failing KIND of operation keeps failing (a file system that cannot rename, a device that stays full)
         self.refired = 0
+        self.die_at = None  # a SECOND fault: the process dies at this (later) operation index - whatever the code does after the first fault
+        self.die_after = None  # ... or right AFTER that operation has taken effect (e.g. after an open(..., "w") has truncated its file)
 
     def op(self, name, detail=None):
         self.count += 1
         self.ops.append(name)
+        if self.die_at is not None and self.count == self.die_at and self.fired is not None:
+            real_os._exit(137)
         if self.k is not None and self.count == self.k and self.fired is None:
             self.fired = (self.count, name)
             return True
@@ -35,6 +39,10 @@ class Plan:
             self.refired += 1
             return True
         return False
+
+    def after(self, index):
+        if self.die_after is not None and index == self.die_after and self.fired is not None:
+            real_os._exit(137)
 
     def fail(self, name):
         if self.action == "exit":
@@ -53,7 +61,12 @@ class FileProxy:
     def write(self, data):
         if self._p.op("write"):
             self._p.fail("write")
-        return self._f.write(data)
+        idx_ = self._p.count
+        r_ = self._f.write(data)
+        if self._p.die_after is not None:
+            self._f.flush()  # "right after the operation took effect": the data is in the file when the process dies
+        self._p.after(idx_)
+        return r_
 
     def flush(self):
         return self._f.flush()
@@ -106,7 +119,10 @@ class Shim:
                 if plan.op("open"):
                     plan.fail("open")
                 plan.ops[-1] = "open:" + real_os.path.basename(str(path))
-                return FileProxy(r_open(path, mode, *a, **kw), plan)
+                idx_ = plan.count
+                f_ = r_open(path, mode, *a, **kw)
+                plan.after(idx_)
+                return FileProxy(f_, plan)
             return r_open(path, mode, *a, **kw)
 
         def shim_replace(src, dst, *a, **kw):
